@@ -346,6 +346,72 @@ func run() int {
 		}
 		rep.Extra = append(rep.Extra, &CheckResult{Check: ck, Status: st, Solver: "type-check", Output: out, Model: out})
 	}
+	// call-graph census: who may call a function (e.g. the plugin constructors)
+	for _, cd := range db.CallerDecls {
+		if prop != "" && !hasProp(cd.Props, prop) {
+			continue
+		}
+		if *flagFn != "" {
+			continue
+		}
+		gotSet := map[string]bool{}
+		calleeSeen := false
+		for fn := range ssautil.AllFunctions(l.prog) {
+			if fn.String() == cd.Callee {
+				calleeSeen = true
+			}
+			top := fn
+			for top.Parent() != nil {
+				top = top.Parent()
+			}
+			if top.Pkg == nil || !strings.HasPrefix(top.Pkg.Pkg.Path(), repoPrefix) || fn.Synthetic != "" {
+				continue
+			}
+			if pos := l.prog.Fset.Position(fn.Pos()); strings.HasSuffix(pos.Filename, "_test.go") {
+				continue
+			}
+			for _, b := range fn.Blocks {
+				for _, ins := range b.Instrs {
+					var cc *ssa.CallCommon
+					switch x := ins.(type) {
+					case *ssa.Call:
+						cc = &x.Call
+					case *ssa.Defer:
+						cc = &x.Call
+					case *ssa.Go:
+						cc = &x.Call
+					}
+					if cc != nil {
+						if sc := cc.StaticCallee(); sc != nil && sc.String() == cd.Callee {
+							gotSet[top.String()] = true
+						}
+					}
+					// the function used as a value (method value, closure argument) counts too
+					for _, op := range ins.Operands(nil) {
+						if op == nil || *op == nil {
+							continue
+						}
+						if f, ok := (*op).(*ssa.Function); ok && f.String() == cd.Callee {
+							if cc == nil || cc.StaticCallee() != f {
+								gotSet[top.String()] = true
+							}
+						}
+					}
+				}
+			}
+		}
+		got := sortedKeys(gotSet)
+		ck := &Check{Name: cd.Callee + "/callers#exact", Class: "structure", Fn: cd.Callee, Props: cd.Props,
+			Info: "the functions of this module that call " + cd.Callee + " are exactly {" + strings.Join(cd.Callers, ", ") + "}", Src: cd.Src, Goal: "false"}
+		st := "failed"
+		out := "callers in the current tree: {" + strings.Join(got, ", ") + "}"
+		if calleeSeen && strings.Join(got, ",") == strings.Join(cd.Callers, ",") {
+			st = "trivial"
+			ck.Trivial = true
+			out = ""
+		}
+		rep.Extra = append(rep.Extra, &CheckResult{Check: ck, Status: st, Solver: "ssa-scan", Output: out, Model: out})
+	}
 	// package-level initialisers pinned to literals
 	for _, gi := range db.GlobalInits {
 		if prop != "" && !hasProp(gi.Props, prop) {
